@@ -198,9 +198,13 @@ class HeaderTypes:
     def __init__(self, bits=64, endianness=Endianness.LITTLE):
         self.bits = bits
         self.endianness = endianness
+        byte_order = ">" if endianness == Endianness.BIG else "<"
+
+        def mk_header(name, fields):
+            return header.mk_header(name, fields, byte_order=byte_order)
 
         if bits == 64:
-            self.ElfHeader = header.mk_header(
+            self.ElfHeader = mk_header(
                 "ElfHeader",
                 [
                     header.Uint16("e_type"),
@@ -220,7 +224,7 @@ class HeaderTypes:
             )
             assert self.ElfHeader.size + 16 == 64
         else:
-            self.ElfHeader = header.mk_header(
+            self.ElfHeader = mk_header(
                 "ElfHeader",
                 [
                     header.Uint16("e_type"),
@@ -241,7 +245,7 @@ class HeaderTypes:
             assert self.ElfHeader.size + 16 == 0x34
 
         if bits == 32:
-            self.SectionHeader = header.mk_header(
+            self.SectionHeader = mk_header(
                 "SectionHeader",
                 [
                     header.Uint32("sh_name"),
@@ -258,7 +262,7 @@ class HeaderTypes:
             )
             assert self.SectionHeader.size == 0x28
         else:
-            self.SectionHeader = header.mk_header(
+            self.SectionHeader = mk_header(
                 "SectionHeader",
                 [
                     header.Uint32("sh_name"),
@@ -276,7 +280,7 @@ class HeaderTypes:
             assert self.SectionHeader.size == 0x40
 
         if bits == 64:
-            self.ProgramHeader = header.mk_header(
+            self.ProgramHeader = mk_header(
                 "ProgramHeader",
                 [
                     header.Uint32("p_type"),
@@ -291,7 +295,7 @@ class HeaderTypes:
             )
             assert self.ProgramHeader.size == 0x38
         else:
-            self.ProgramHeader = header.mk_header(
+            self.ProgramHeader = mk_header(
                 "ProgramHeader",
                 [
                     header.Uint32("p_type"),
@@ -307,7 +311,7 @@ class HeaderTypes:
             assert self.ProgramHeader.size == 0x20
 
         if bits == 64:
-            self.SymbolTableEntry = header.mk_header(
+            self.SymbolTableEntry = mk_header(
                 "SymbolTableEntry",
                 [
                     header.Uint32("st_name"),
@@ -320,7 +324,7 @@ class HeaderTypes:
             )
             assert self.SymbolTableEntry.size == 24
         else:
-            self.SymbolTableEntry = header.mk_header(
+            self.SymbolTableEntry = mk_header(
                 "SymbolTableEntry",
                 [
                     header.Uint32("st_name"),
@@ -334,7 +338,7 @@ class HeaderTypes:
             assert self.SymbolTableEntry.size == 16
 
         if bits == 64:
-            self.RelocationTableEntry = header.mk_header(
+            self.RelocationTableEntry = mk_header(
                 "RelocationTableEntry",
                 [
                     header.Uint64("r_offset"),
@@ -344,7 +348,7 @@ class HeaderTypes:
             )
             assert self.RelocationTableEntry.size == 24
         else:
-            self.RelocationTableEntry = header.mk_header(
+            self.RelocationTableEntry = mk_header(
                 "RelocationTableEntry",
                 [
                     header.Uint32("r_offset"),
@@ -355,7 +359,7 @@ class HeaderTypes:
             assert self.RelocationTableEntry.size == 12
 
         if bits == 64:
-            self.DynamicEntry = header.mk_header(
+            self.DynamicEntry = mk_header(
                 "DynamicEntry",
                 [
                     header.Int64("d_tag"),
@@ -364,7 +368,7 @@ class HeaderTypes:
             )
             assert self.DynamicEntry.size == 16
         else:
-            self.DynamicEntry = header.mk_header(
+            self.DynamicEntry = mk_header(
                 "DynamicEntry",
                 [
                     header.Int32("d_tag"),
